@@ -108,6 +108,24 @@ func selftestOne(id, patch string) (string, string) {
 	for _, f := range files {
 		if _, err := os.Stat(filepath.Join(repo, f)); err == nil {
 			overlay[filepath.Join(RepoDir, f)] = filepath.Join(repo, f)
+			continue
+		}
+		// the patch deletes the file: an overlay cannot remove a file, an empty file of the same
+		// package is the same thing to the compiler
+		if orig, err := os.ReadFile(filepath.Join(RepoDir, f)); err == nil && strings.HasSuffix(f, ".go") {
+			pkgLine := ""
+			for _, l := range strings.Split(string(orig), "\n") {
+				if strings.HasPrefix(l, "package ") {
+					pkgLine = l
+					break
+				}
+			}
+			if pkgLine != "" {
+				stub := filepath.Join(repo, f)
+				os.MkdirAll(filepath.Dir(stub), 0o755)
+				os.WriteFile(stub, []byte(pkgLine+"\n"), 0o644)
+				overlay[filepath.Join(RepoDir, f)] = stub
+			}
 		}
 	}
 	ob, _ := json.Marshal(overlay)
